@@ -17,7 +17,7 @@ use vpmodel::spec::ChainSpec;
 pub const DEF: PropDef = PropDef {
     id: "C02",
     level: "exploration",
-    rule: "part 1 (bounded-exhaustive): for every tip height T<=Tmax, every accepted option combination (none; -s in 0..=T; -e in 1..=T+3; both with s<e) x 5 callbacks x 2 coins on a fixed generated chain, plus the csvdump runs again with --verify on a chain that starts at the real genesis block; part 3 (progress-line-due): 10 runs (5 callbacks, with and without a range) that are stopped for 10.5 s right after the first block is announced, so that the driver's 10-second progress line falls due inside the block loop; part 2 (random): chains up to 60 blocks in generated physical layouts (1..60 blk files, any order), base heights up to 10^7 (segment chains), random (s,e). Oracle: callback output == reference model applied to exactly heights s..=min(e,T); file names carry s and min(e,T); 'Processed blocks up to height' == min(e,T); for csvdump/opreturn the range output equals the row slice of the whole-chain output. Non-trivial = a range option is given and at least one block of the chain is excluded; distinct by (T, base, s, e, callback, coin).",
+    rule: "part 1 (bounded-exhaustive): for every tip height T<=Tmax, every accepted option combination (none; -s in 0..=T; -e in 1..=T+3; both with s<e) x 5 callbacks x 2 coins on a fixed generated chain, plus the csvdump runs again with --verify on a chain that starts at the real genesis block; part 3 (progress-line-due): 10 runs (5 callbacks, with and without a range) that are stopped for 10.5 s right after the first block is announced, so that the driver's 10-second progress line falls due inside the block loop; part 4 (thousand-blk-files): a 1300-block chain stored one block per blk file, processed whole and in ranges under RLIMIT_NOFILE=256 (real chains have thousands of blk files against a default limit of 1024); part 2 (random): chains up to 60 blocks in generated physical layouts (1..60 blk files, any order), base heights up to 10^7 (segment chains), random (s,e). Oracle: callback output == reference model applied to exactly heights s..=min(e,T); file names carry s and min(e,T); 'Processed blocks up to height' == min(e,T); for csvdump/opreturn the range output equals the row slice of the whole-chain output. Non-trivial = a range option is given and at least one block of the chain is excluded; distinct by (T, base, s, e, callback, coin).",
     assumptions: &["options the CLI accepts: s<e when both are given; s <= T (a start beyond the tip is outside the statement)", "for chains whose first indexed height is > 0 a --start at or above that height is given"],
     run,
     replay,
@@ -39,6 +39,9 @@ pub struct Case {
     /// more than 10 s 'late', which makes the driver print its progress line)
     #[serde(default)]
     pub pause: bool,
+    /// RLIMIT_NOFILE of the run (part 'thousand-blk-files')
+    #[serde(default)]
+    pub nofile: Option<u64>,
 }
 
 fn chain_cfg(tier: Tier) -> gen::ChainCfg {
@@ -85,6 +88,7 @@ pub fn check(c: &Case) -> Verdict {
     if c.pause {
         o.pause_on = Some(("Processing blocks starting from height".to_string(), 10.5));
     }
+    o.nofile = c.nofile;
     o.verify = c.verify && ((base == 0 && c.chain.real_genesis && vpmodel::chain::genesis_block(built.coin).is_some()) || s > base);
     let out = infra!(w.run(&o));
     if let Some(v) = timed_out_is_infra(&out) {
@@ -161,9 +165,9 @@ pub fn exhaustive_cases(seed: u64, tmax: u64, tier: Tier) -> Vec<Case> {
             }
             for (s, e) in opts {
                 for cb in ALL_CALLBACKS {
-                    v.push(Case { chain: chain.clone(), start: s, end: e, cb, layout: None, verify: false, pause: false });
+                    v.push(Case { chain: chain.clone(), start: s, end: e, cb, layout: None, verify: false, pause: false, nofile: None });
                     if cb == Callback::CsvDump && coin == Coin::Bitcoin {
-                        v.push(Case { chain: vchain.clone(), start: s, end: e, cb, layout: None, verify: true, pause: false });
+                        v.push(Case { chain: vchain.clone(), start: s, end: e, cb, layout: None, verify: true, pause: false, nofile: None });
                     }
                 }
             }
@@ -193,7 +197,7 @@ pub fn random_strategy(tier: Tier) -> BS<Case> {
                 2 => (None, Some(e.max(base + 1))),
                 _ => (Some(s), Some(e)),
             };
-            Case { chain, start, end, cb, layout, verify, pause: false }
+            Case { chain, start, end, cb, layout, verify, pause: false, nofile: None }
         })
         .boxed()
 }
@@ -209,15 +213,39 @@ fn run(eng: &Engine, a: &Args) {
         // thousands of one-transaction blocks: the block loop is still running when the stop arrives
         let scripts: Vec<Vec<u8>> = (0..6000usize).map(|i| if i % 7 == 3 { vec![0x6a, 0x03, b'a' + (i % 26) as u8, b'0' + (i % 10) as u8, b'!'] } else { let mut s = vec![0x76, 0xa9, 0x14]; s.extend([(i & 0xff) as u8, (i >> 8) as u8].iter().cycle().take(20)); s.extend([0x88, 0xac]); s }).collect();
         let chain = vpmodel::spec::chain_from_scripts([Coin::Bitcoin, Coin::Litecoin][k % 2], &scripts, &[1000, 2500], 1, 1, 0, 1_400_000_000);
-        slow.push(Case { chain: chain.clone(), start: None, end: None, cb: *cb, layout: None, verify: false, pause: true });
-        slow.push(Case { chain, start: Some(300), end: Some(5700), cb: *cb, layout: None, verify: false, pause: true });
+        slow.push(Case { chain: chain.clone(), start: None, end: None, cb: *cb, layout: None, verify: false, pause: true, nofile: None });
+        slow.push(Case { chain, start: Some(300), end: Some(5700), cb: *cb, layout: None, verify: false, pause: true, nofile: None });
     }
     eng.enumerate("progress-line-due", slow, check);
+    // a chain spread over more blk files than the descriptor limit allows to hold open (real chains have thousands
+    // of blk files against a default limit of 1024; here 1300 one-block files against a limit of 256): every
+    // block of the range must still be delivered
+    let scripts: Vec<Vec<u8>> = (0..1300usize).map(|i| { let mut s = vec![0x76, 0xa9, 0x14]; s.extend([(i & 0xff) as u8, (i >> 8) as u8].iter().cycle().take(20)); s.extend([0x88, 0xac]); s }).collect();
+    let chain = vpmodel::spec::chain_from_scripts(Coin::Bitcoin, &scripts, &[1000, 2500], 1, 1, 0, 1_400_000_000);
+    let nf = 1300usize;
+    let layout = vpmodel::layout::LayoutSpec {
+        files: (0..nf).map(|k| vpmodel::layout::FileSlot { number: k as u64, pad: 5 }).collect(),
+        assign: (0..nf).map(|f| ((f * 65536 + nf - 1) / nf) as u16).collect(),
+        order: vec![0],
+        gaps: vec![vpmodel::layout::Gap::None],
+        lead: vec![vpmodel::layout::Gap::None],
+        xor: None,
+        extras: Default::default(),
+        ldb_small: false,
+        ldb_reopens: 0,
+        ldb_compact: false,
+    };
+    let many = vec![
+        Case { chain: chain.clone(), start: None, end: None, cb: Callback::CsvDump, layout: Some(layout.clone()), verify: false, pause: false, nofile: Some(256) },
+        Case { chain: chain.clone(), start: Some(40), end: Some(1290), cb: Callback::UnspentCsvDump, layout: Some(layout.clone()), verify: false, pause: false, nofile: Some(256) },
+        Case { chain, start: None, end: Some(1000), cb: Callback::SimpleStats, layout: Some(layout), verify: false, pause: false, nofile: Some(256) },
+    ];
+    eng.enumerate("thousand-blk-files", many, check);
 }
 
 fn replay(part: &str, case: serde_json::Value) -> Option<Verdict> {
     match part {
-        "exhaustive-small-T" | "random-ranges" | "progress-line-due" => Some(check(&serde_json::from_value(case).ok()?)),
+        "exhaustive-small-T" | "random-ranges" | "progress-line-due" | "thousand-blk-files" => Some(check(&serde_json::from_value(case).ok()?)),
         _ => None,
     }
 }
